@@ -29,7 +29,7 @@ PROPS = {
         assumptions=["stdio stream = byte array, a gap created by writing past the end reads as zeros; single-threaded; all offsets and lengths within int32 (the model is unbounded)"],
     ),
     "C12": dict(
-        lean_props=["H4.Props.C12"],
+        lean_props=["H4.Props.C12", "H4.Props.C12Fn"],
         engines=[
             E("dd", "e_dd.c", model="dd", quick=dict(cases=640, chunk=16, timeout=900), thorough=dict(cases=6400, seeds=4, chunk=32, timeout=1800)),
         ],
